@@ -6,6 +6,9 @@ use crate::rng::Rng;
 
 fn simple_action(r: &mut Rng, depth: u32) -> String {
     match r.below(if depth == 0 { 8 } else { 6 }) {
+        // one in eight plain keys is a reserved no-op key (nop0..nop9): never sent to the OS, also not
+        // as a repeat
+        0..=2 if r.chance(1, 8) => (*r.pick(&["nop0", "nop1", "nop5", "nop8", "nop9"])).to_string(),
         0..=2 => (*r.pick(&OUT_KEYS)).to_string(),
         3 | 4 => format!("{}-{}", r.pick(&["C", "S", "A", "RA", "C-S"]), r.pick(&["q", "w", "x", "1"])),
         5 => "use-defsrc".into(),
